@@ -660,6 +660,14 @@ def run_C14(ctx):
         cases.append(gen.hist_case("d%d" % k, [pre, t + "\n"]))
         k += 1
     do_stream(ctx, "planted-faults", cases, P, oracle=oracles.oracle_diagnostics)
+    # a statement-level failure (refused assignment / definition / deletion, failing right-hand side) in the middle of a
+    # text: exactly one diagnostic, and the statements after it still run (small fixed stream: replayed whole)
+    cont = []
+    for k2, ft in enumerate(["pi = 3", "sin = 2", "sin(a) = a", "delete pi", "delete sin(a)", "delete nothing", "delete nothing(a)", "y = 1/0", "y = unknown", "delete f(zz, yy, xx)",
+                              "e(x) = x", "delete x(a)", "y = [1, 5 m]", "y = sin(1, 2)", "s(a) = a", "delete s(a)"]):
+        for sep in ("\n", "; "):
+            cont.append(gen.hist_case("c%d%s" % (k2, "n" if sep == "\n" else "s"), [pre, "x = 2" + sep + ft + sep + "x + 1" + sep + ft + sep + "2 * 3" + sep + "x = 5" + sep + "x\n"]))
+    do_stream(ctx, "continue-after-failure", cont, P, oracle=oracles.oracle_diagnostics, setup=1)
     PP = props.proj_parse(with_pos=True)
     do_stream(ctx, "parsek-positions", gen.parsek_exhaustive(gen.REDUCED, 3 if quick else 4, "q"), PP,
               exhaustive="all token sequences over the reduced alphabet up to length %d, error kind and position compared" % (3 if quick else 4))
